@@ -188,7 +188,8 @@ def _select(spec, ctx):
         ctx.note('no fit-able candidate (outside the property)')
         return
     best = min(s for _, s in scores)
-    chosen = type(model._instance).__name__
+    inner = getattr(model, '_instance', None)
+    chosen = type(inner).__name__ if inner is not None else uni.selected_family(model)
     mine = [s for n, s in scores if n == chosen]
     ctx.check(bool(mine) and min(mine) <= best + 1e-12, 'select.minimal-ks', 'C05:selected-candidate-not-minimal-ks',
               lambda: dict(where, chosen=chosen, chosen_ks=min(mine) if mine else None, scores=scores))
